@@ -112,6 +112,9 @@ type Node struct {
 	Lit   string // rendered second argument
 	V     aval
 	Idx   int // probe index, assigned in source order when rendered
+	// Plain: the leaf is written as the bare literal (no probe call): it leaves no
+	// log entry, and the expression around it may look constant to the interpreter
+	Plain bool
 
 	// call
 	Callee     *Callee
@@ -244,6 +247,12 @@ func (r *renderer) src(n *Node) string {
 	case "leaf":
 		r.next++
 		n.Idx = r.next
+		if n.Plain {
+			if n.Probe == "pn" {
+				return "nil"
+			}
+			return n.Lit
+		}
 		if n.Lit == "" {
 			return fmt.Sprintf("%s(%d)", n.Probe, n.Idx)
 		}
@@ -321,6 +330,9 @@ func (r *renderer) src(n *Node) string {
 		return r.call(n)
 
 	// statements
+	case "twice":
+		// the statement is executed twice: the same nodes, a second time
+		return "for tw = 0; tw < 2; tw++ { " + r.src(n.Kids[0]) + " }"
 	case "expr":
 		return r.src(n.Kids[0])
 	case "seq":
@@ -441,6 +453,9 @@ func (r *ref) unknownStatus() { r.pending = true }
 func (n *Node) eval(r *ref) (aval, bool) {
 	switch n.T {
 	case "leaf":
+		if n.Plain {
+			return n.V, true
+		}
 		if r.pending {
 			r.undet = true
 		}
@@ -799,6 +814,13 @@ func (n *Node) eval(r *ref) (aval, bool) {
 		return n.evalCall(r)
 
 	// ---- statements ----
+	case "twice":
+		for i := 0; i < 2; i++ {
+			if _, ok := n.Kids[0].eval(r); !ok {
+				return unknownVal, false
+			}
+		}
+		return unknownVal, true
 	case "expr", "letmapitem":
 		return n.Kids[0].eval(r)
 	case "seq":
